@@ -249,7 +249,11 @@ class ConstantQubitNoiseModel(NoiseModel):
         return output[::-1] if self._prepend else output
 
     def _json_dict_(self) -> dict[str, Any]:
-        return protocols.obj_to_dict_helper(self, ['qubit_noise_gate'])
+        result = protocols.obj_to_dict_helper(self, ['qubit_noise_gate'])
+        if self._prepend:
+            # Only written when set, so documents without the field keep meaning `prepend=False`.
+            result['prepend'] = True
+        return result
 
     def _has_unitary_(self) -> bool:
         return protocols.has_unitary(self.qubit_noise_gate)
